@@ -9,6 +9,7 @@ import (
 	"sync"
 
 	"github.com/hashicorp/go-hclog"
+	"github.com/hashicorp/go-plugin/internal/verifhook"
 	"github.com/hashicorp/yamux"
 )
 
@@ -80,6 +81,7 @@ func (m *GRPCClientMuxer) Listener(id uint32, doneCh <-chan struct{}) (net.Liste
 }
 
 func (m *GRPCClientMuxer) AcceptKnock(id uint32) error {
+	verifhook.Point("cmux.acceptknock", id)
 	m.acceptMutex.Lock()
 	defer m.acceptMutex.Unlock()
 
